@@ -1,6 +1,9 @@
 package c07
 
 import (
+	"encoding/hex"
+	"strings"
+	"verif/harness/lib/mediah"
 	"testing"
 
 	"github.com/cnotch/ipchub/av/format/rtp"
@@ -85,5 +88,29 @@ func TestWitnessDepacketizerAggregates(t *testing.T) {
 	for _, h := range hostileH265 {
 		evid.Eval(1)
 		judge(t, "witness-h265-payload", witnessCase(esgen.H265, true, "witness: h265 "+h.Name, rtp.ChannelVideo, mediaPacket(96, true, 500, 90000+2*probeStep, h.B), 2))
+	}
+}
+
+// Converter loops: a frame that makes the MPEG-TS muxer goroutine panic must
+// cost that frame only. Witness: the SDP announces AAC with an
+// AudioSpecificConfig that does not decode (config=00: audio object type 0), so
+// the TS AAC packetizer has no ADTS template and panics on every audio frame;
+// the video of the same stream is well-formed and must still reach HLS.
+func TestWitnessTsMuxerSurvivesBadAudioConfig(t *testing.T) {
+	evid.Eval(1)
+	c := &caseSpec{Codec: "H264", Audio: true, CacheGop: true, Class: "witness: sdp with undecodable AAC config"}
+	c.SDP = strings.Replace(mediah.SDP(esgen.H264, true), "config="+hex.EncodeToString(esgen.RealAacASC), "config=00", 1)
+	if c.SDP == mediah.SDP(esgen.H264, true) {
+		t.Fatal("harness: config= not found in the SDP template")
+	}
+	c.Prefix = plainPrefix(esgen.H264, true, 2, 90000)
+	c.Pos = len(c.Prefix)
+	c.ProbeTS = 90000 + 2*probeStep
+	res := runCase(c, true)
+	if !res.HasHLS {
+		t.Fatal("harness: the stream has no HLS output at all")
+	}
+	if f := res.failure(); f != "" {
+		evid.Violation(t, "witness-ts-muxer/"+f, map[string]any{"case": c, "result": res}, "%s: %s", f, describe(res))
 	}
 }
